@@ -165,5 +165,5 @@ Section Trace.
     | e :: h' => let s' := step_ev id_ok id_valid addr_of s e in (s, e, s') :: trace s' h'
     end.
   Definition accepted (s : state) (e : event) : Prop :=
-    step id_ok id_valid addr_of s (e_signers e) (e_op e) <> None.
+    step id_ok id_valid addr_of (e_legacy e) s (e_signers e) (e_op e) <> None.
 End Trace.
